@@ -394,3 +394,23 @@ if __name__ == "__main__":
                 f"t={time.time() - t0:.1f}s",
                 flush=True,
             )
+
+
+def isolate_sample(ts, s, loci, simplify=True):
+    """K decorator: sample s becomes isolated (missing data) over the given unit loci"""
+    t = ts.dump_tables()
+    edges = t.edges.copy()
+    t.edges.clear()
+    for e in edges:
+        if e.child == s:
+            for l in range(int(e.left), int(e.right)):
+                if l not in loci:
+                    t.edges.add_row(l, l + 1, e.parent, e.child)
+        else:
+            t.edges.append(e)
+    t.sort()
+    t.edges.squash()
+    t.sort()
+    if simplify:
+        t.simplify()
+    return t.tree_sequence()
